@@ -8,7 +8,7 @@ def gen_file(rnd, kind, delim, malformed=False):
     """lines + the clean rows a reader must see, built from a row grammar"""
     d = ' ' if delim is None else delim
     lines, rows = [], []
-    t = rnd.randint(0, 3)
+    t = rnd.choice([rnd.randint(0, 3), rnd.randint(-6, -1)])      # negative timestamps too: then 0 is not the smallest
     latest = {}
     for _ in range(rnd.randint(2, 9)):
         r = rnd.random()
